@@ -131,6 +131,7 @@ def extract(nng, arch, res):
                            "dy": int(k.dilation.y), "dx": int(k.dilation.x)}
             d["upscale"] = op.ifm_resampling_mode.name if hasattr(op.ifm_resampling_mode, "name") else str(op.ifm_resampling_mode)
             d["block_type"] = op.type.npu_block_type.name
+            d["tile_padding"] = str(op.attrs.get("padding", "")).endswith("TILE")
             d["pad_attr"] = [int(v) for v in op.attrs["explicit_padding"]] if "explicit_padding" in op.attrs else None
             d["read_offsets"] = [None if ro is None else [int(v) for v in ro.as_list()] for ro in op.read_offsets]
             d["write_offset"] = None if op.write_offset is None else [int(v) for v in op.write_offset.as_list()]
